@@ -44,6 +44,9 @@ pub enum Expect {
     Tolerated,
     /// either a connection error with one of the codes or tolerated (floods below / above thresholds)
     GoawayOrTolerated(Vec<u32>),
+    /// a malformed request on `refused` (stream error, PROTOCOL_ERROR / 400) followed by a well-formed
+    /// one on `served`, which must get its 200: the first must not count against the second
+    RefusedThenServed { refused: u32, served: u32 },
 }
 
 #[derive(Clone, Debug, serde::Serialize, serde::Deserialize)]
@@ -189,6 +192,10 @@ pub fn cases(tier: Tier) -> Vec<Case> {
         ("no-length-padding-only-data-first", [nolen(abuse_stream), h2::frame(h2::DATA, h2::F_PADDED, abuse_stream, &[3, 0, 0, 0]), h2::data(abuse_stream, b"AAAABBBB", true)].concat(), Expect::StreamError { stream: abuse_stream, codes: vec![], or_status: vec![200] }, false),
         ("no-length-padding-only-data-ends", [nolen(abuse_stream), h2::data(abuse_stream, b"AAAABBBB", false), h2::frame(h2::DATA, h2::F_PADDED | h2::F_END_STREAM, abuse_stream, &[3, 0, 0, 0])].concat(), Expect::StreamError { stream: abuse_stream, codes: vec![], or_status: vec![200] }, false),
         ("no-length-padded-data", [nolen(abuse_stream), h2::frame(h2::DATA, h2::F_PADDED, abuse_stream, &[2, b'A', b'A', b'A', b'A', 0, 0]), h2::frame(h2::DATA, h2::F_PADDED | h2::F_END_STREAM, abuse_stream, &[1, b'B', b'B', b'B', b'B', 0])].concat(), Expect::StreamError { stream: abuse_stream, codes: vec![], or_status: vec![200] }, false),
+        // a malformed request whose header block comes in 13 pieces is a stream error; the counters
+        // that guard against CONTINUATION floods are per header block: the well-formed request that
+        // follows in 11 pieces (below the threshold) must be served
+        ("fragmented-block-refused-then-fragmented-request", [fragmented(abuse_stream, &req_block("/abuse", &[("X-Upper", "1")]), 12), fragmented(abuse_stream + 2, &req_block("/size/44", &[("x-ok", "1")]), 10)].concat(), Expect::RefusedThenServed { refused: abuse_stream, served: abuse_stream + 2 }, true),
         ("cancel-own-stream-at-once", [headers_frame(abuse_stream, &req_block("/size/100000", &[]), true), h2::rst_stream(abuse_stream, CANCEL)].concat(), Expect::Tolerated, false),
         // cancelled in the middle of its response body (the pre-step opens it and waits for part of the body)
         ("cancel-mid-body", h2::rst_stream(abuse_stream, CANCEL), Expect::Tolerated, false),
@@ -240,6 +247,33 @@ pub fn cases(tier: Tier) -> Vec<Case> {
 /// the malformed-request family (what an HTTP/2 client can do to the request sozu writes to a backend)
 pub fn request_cases(tier: Tier) -> Vec<Case> {
     cases(tier).into_iter().filter(|c| c.must_not_forward || c.name.starts_with("content-length") || c.name.contains("padded-data") || c.name.contains("empty-data-frames") || c.name.starts_with("no-length")).collect()
+}
+
+/// a header block cut into HEADERS + `continuations` CONTINUATION frames (END_STREAM, END_HEADERS on the last)
+fn fragmented(stream: u32, block: &[u8], continuations: usize) -> Vec<u8> {
+    let piece = (block.len() / (continuations + 1)).max(1);
+    let mut chunks: Vec<&[u8]> = block.chunks(piece).collect();
+    while chunks.len() > continuations + 1 {
+        // fold the tail into the last piece
+        let n = chunks.len();
+        let start = block.len() - chunks[n - 1].len() - chunks[n - 2].len();
+        chunks.truncate(n - 2);
+        chunks.push(&block[start..]);
+    }
+    let mut v = vec![];
+    let mut sent = 0;
+    for i in 0..=continuations {
+        let c: &[u8] = chunks.get(i).copied().unwrap_or(&[]);
+        sent += c.len();
+        let last = i == continuations;
+        if i == 0 {
+            v.extend_from_slice(&h2::frame(h2::HEADERS, h2::F_END_STREAM | if last { h2::F_END_HEADERS } else { 0 }, stream, c));
+        } else {
+            v.extend_from_slice(&h2::frame(h2::CONTINUATION, if last { h2::F_END_HEADERS } else { 0 }, stream, c));
+        }
+    }
+    debug_assert_eq!(sent, block.len());
+    v
 }
 
 /// HEADERS of a POST without content-length, body to follow
@@ -433,6 +467,27 @@ pub fn run_case_tagged(tag: &str, case: &Case, prefix: Vec<u32>, profile: Choice
                         connection_error(codes, &mut flag)
                     } else {
                         tolerated(&mut flag)
+                    }
+                }
+                Expect::RefusedThenServed { refused, served } => {
+                    let r = ep.streams.get(refused);
+                    let refused_ok = r.is_some_and(|s| s.rst == Some(PROTOCOL_ERROR) || s.status() == Some(400));
+                    if ep.goaway.is_none() && over && a.conn.reset {
+                        // a connection error whose GOAWAY was lost to a reset (see above)
+                    } else if let Some((_, code)) = ep.goaway {
+                        // RFC 9113 section 5.4.1: the stream error may be escalated, with its own code
+                        if code != PROTOCOL_ERROR {
+                            flag(format!("goaway-code-{code}"), format!("a malformed request followed by a well-formed one was answered GOAWAY({code}); the stream error calls for PROTOCOL_ERROR on stream {refused} only"));
+                        }
+                    } else {
+                        if !refused_ok {
+                            flag("stream-error-not-signalled".into(), format!("stream {refused}: {:?}, expected RST_STREAM(PROTOCOL_ERROR) or 400", r.map(|s| (s.rst, s.status()))));
+                        }
+                        match ep.streams.get(served) {
+                            Some(s) if s.status() == Some(200) && s.end_stream => {}
+                            other => flag("well-formed-request-after-a-refused-one-not-served".into(), format!("stream {served}: {:?}", other.map(|s| (s.status(), s.body.len(), s.end_stream, s.rst)))),
+                        }
+                        tolerated(&mut flag);
                     }
                 }
                 Expect::StreamError { stream, codes, or_status } => {
